@@ -104,7 +104,16 @@ func hsCaseFor(c *hsConfig, route string, script []hsRecv, auths []interface{}, 
 		hc.Cfg.SupEnc = []string{"none"}
 	}
 	if regOk {
+		// what the registration callback supplies varies with the script: the assigned node, a node without
+		// an instance (while the peer asked for one), another identity altogether — "the established
+		// session announces exactly that address"
 		n := hsAssigned
+		switch (len(script) + len(route)) % 3 {
+		case 1:
+			n = codec.VNode{N: "alice", D: "verif.local"}
+		case 2:
+			n = codec.VNode{N: "bob", D: "elsewhere.local", I: "x"}
+		}
 		hc.Regs = []*codec.VNode{&n, &n}
 	} else {
 		hc.Regs = []*codec.VNode{nil}
